@@ -58,3 +58,98 @@ theorem remove_cnt (a : Arr) (n k v : Nat) (hk : k < n) (hne : k ≠ n - 1) :
   exact resift_cnt a (n - 1) k (a (n - 1)) v (by omega)
 
 end HeapP
+
+namespace HeapP
+
+/-! ## `dth_needs_program`: a root slot was written
+
+`_dispatch_timer_heap_set` raises `dth_needs_program` whenever it stores into a root slot; the kernel timer is reprogrammed
+only when the flag is up. The functions below say when `resift` stores into slot 0; the theorems say that while the flag
+stays down the root — the key the kernel timer was programmed for — is unchanged. -/
+
+/-- does the sift-up loop with the hole at `i` end by storing into slot 0 -/
+def siftUpW (a : Arr) (i x : Nat) : Bool :=
+  if h : i = 0 then true
+  else if a (par i) ≤ x then false
+  else siftUpW (set a i (a (par i))) (par i) x
+termination_by i
+decreasing_by unfold par; omega
+
+/-- does `_dispatch_timer_heap_resift(dth, dt, idx)` store into the root slot (sift-down from `i` stores into slot `i` first) -/
+def resiftW (a : Arr) (i x : Nat) : Bool :=
+  if i ≠ 0 ∧ ¬ a (par i) ≤ x then siftUpW (set a i (a (par i))) (par i) x else decide (i = 0)
+
+theorem siftUp_root : ∀ (i : Nat) (a : Arr) (x : Nat), siftUpW a i x = false → siftUp a i x 0 = a 0 := by
+  intro i
+  induction i using Nat.strongRecOn with
+  | _ i ih =>
+    intro a x hw
+    unfold siftUpW at hw
+    unfold siftUp
+    split
+    · rename_i h0; simp [h0] at hw
+    · rename_i h0
+      simp only [h0, dite_false] at hw
+      split
+      · exact set_other _ _ _ _ (by omega)
+      · rename_i hgt
+        simp only [hgt, if_false] at hw
+        rw [ih (par i) (par_lt (Nat.pos_of_ne_zero h0)) _ x hw]
+        exact set_other _ _ _ _ (by omega)
+
+theorem siftDown_below (n : Nat) : ∀ (k i : Nat) (a : Arr) (x : Nat), n - i = k → ∀ j, j < i → siftDown a n i x j = a j := by
+  intro k
+  induction k using Nat.strongRecOn with
+  | _ k ih =>
+    intro i a x hk j hj
+    unfold siftDown
+    split
+    · rename_i hc
+      simp only []
+      generalize hm : (if 2 * i + 1 + 1 < n ∧ a (2 * i + 1) > a (2 * i + 1 + 1) then 2 * i + 1 + 1 else 2 * i + 1) = m
+      have hmi : i < m ∧ m < n := by split at hm <;> omega
+      split
+      · exact set_other _ _ _ _ (by omega)
+      · rw [ih (n - m) (by omega) _ _ _ rfl j (by omega)]
+        exact set_other _ _ _ _ (by omega)
+    · exact set_other _ _ _ _ (by omega)
+
+/-- **while `resift` does not raise the flag the root key is unchanged** -/
+theorem resift_root (a : Arr) (n i x : Nat) (hw : resiftW a i x = false) : resift a n i x 0 = a 0 := by
+  unfold resiftW at hw
+  unfold resift
+  split
+  · rename_i h
+    rw [if_pos h] at hw
+    rw [siftUp_root _ _ _ hw]
+    exact set_other _ _ _ _ (by omega)
+  · rename_i h
+    rw [if_neg h] at hw
+    have hi : i ≠ 0 := by simpa using hw
+    exact siftDown_below n (n - i) i a x rfl 0 (by omega)
+
+/-- the flag for the three operations on one logical heap (the empty ↔ non-empty transitions raise it unconditionally) -/
+def insertW (a : Arr) (n x : Nat) : Bool := n == 0 || resiftW a n x
+def removeW (a : Arr) (n k : Nat) : Bool := n ≤ 1 || (if k = n - 1 then false else resiftW a k (a (n - 1)))
+def updateW (a : Arr) (k x : Nat) : Bool := resiftW a k x
+
+theorem insert_root (a : Arr) (n x : Nat) (hw : insertW a n x = false) : insert a n x 0 = a 0 := by
+  simp only [insertW, Bool.or_eq_false_iff] at hw
+  exact resift_root a (n + 1) n x hw.2
+
+theorem remove_root (a : Arr) (n k : Nat) (hw : removeW a n k = false) : remove a n k 0 = a 0 := by
+  simp only [removeW, Bool.or_eq_false_iff] at hw
+  unfold remove
+  split
+  · rfl
+  · rename_i h
+    rw [if_neg h] at hw
+    exact resift_root a (n - 1) k _ hw.2
+
+theorem update_root (a : Arr) (n k x : Nat) (hw : updateW a k x = false) : update a n k x 0 = a 0 :=
+  resift_root a n k x hw
+
+/-- re-keying the root always raises the flag: an armed timer that is the earliest and is re-armed is always reprogrammed -/
+theorem update_root_flag (a : Arr) (x : Nat) : updateW a 0 x = true := by simp [updateW, resiftW]
+
+end HeapP
